@@ -103,8 +103,14 @@ def main():
                       "expected": meta.get("expected_static", "reported"), "reported_by": meta.get("reported_by")})
     for f in sorted(glob.glob(os.path.join(VERIF, "variants", pid, "*.diff"))):
         # reverse patches of the repairs made in /repo: each re-introduces a defect the check must report
-        items.append({"name": os.path.basename(f)[:-5], "kind": "seeded", "patch": f, "expected": "reported"})
+        side = {}
+        if os.path.exists(f[:-5] + ".meta.json"):
+            side = json.load(open(f[:-5] + ".meta.json"))
+        items.append({"name": os.path.basename(f)[:-5], "kind": "seeded", "patch": f,
+                      "expected": side.get("expected_static", "reported"), "reported_by": side.get("reported_by")})
     for f in sorted(glob.glob(os.path.join(VERIF, "variants", pid, "*.json"))):
+        if f.endswith(".meta.json"):
+            continue
         spec = json.load(open(f))
         specs = spec if isinstance(spec, list) else [spec]
         for i, sp in enumerate(specs):
